@@ -26,10 +26,15 @@ What the model cannot exhibit (named per DESIGN section 5):
   consistent and durable after every operation;
 * an executor thread that is still inside `write`/`close` after its awaiting coroutine was
   cancelled (aiofiles runs every file operation in a thread pool), overlapping a later save;
-* where inside `write`…`close` the text layer's buffer is flushed — immaterial: every flush
-  schedule yields crash states inside the set enumerated here (see Model/FileOps.lean).
+* where inside `write`…`close` the text layer's buffer is flushed — immaterial FOR TODAY'S SEQUENCE: every
+  flush schedule yields crash states inside the set enumerated here (`buffered_crash_states_are_prefixes`).
+  It is material for a sequence that renames / removes a file while a handle with unflushed text is open on
+  it: section "Buffered writes" (`Model/FileOpsBuffered.lean`, `CrashSafeB`): `rename_before_close_not_crash_safe`
+  vs `rename_before_close_safe_if_write_through`.  The correspondence run therefore also judges the directory
+  as it really is before every file-system operation of the real save.
 -/
 import AioMySensors.Model.FileOps
+import AioMySensors.Model.FileOpsBuffered
 import AioMySensors.Lemmas.JsonText
 import AioMySensors.Lemmas.PersistReach
 
@@ -177,6 +182,101 @@ theorem backup_first_not_crash_safe (L : Loader Reg) (r : Reg) (hok : L.ok r) (h
   rcases hs r r hok hok _ hmem with h | h
   · exact hgap.1 h
   · exact hgap.2 h
+
+/-! ### Buffered writes: what is on disk is what was flushed, not what was written
+
+`crashStatesB` (Model/FileOpsBuffered.lean): `write` fills the handle's buffer, `close` flushes it, a handle
+follows its file through a rename, and a crash finds the disk with any prefix of every buffer flushed. -/
+
+/-- The property at full strength under buffered writes. -/
+def CrashSafeB (L : Loader Reg) (ops : Bytes → List FsOp) : Prop :=
+  ∀ old new : Reg, L.ok old → L.ok new → ∀ c ∈ crashStatesB (BFs.init (L.dump old)) (ops (L.dump new)),
+    loadFs L c = .ok old ∨ loadFs L c = .ok new
+
+/-- Buffering adds nothing to today's sequence: wherever the flushes happen, the live file holds the old
+text or a prefix of the new text - the class of the known finding and nothing else. -/
+theorem buffered_crash_states_are_prefixes (old new : Bytes) (c : Fs)
+    (h : c ∈ crashStatesB (BFs.init old) (saveOps new)) :
+    c.live = some old ∨ ∃ p, c.live = some p ∧ p <+: new := by
+  simp only [saveOps, crashStatesB, visible, BFs.init, Fs.init, applyOpB, BFs.setHandle, BFs.buf, BFs.loc, prefixes,
+    flushTo, Fs.set, Fs.get, List.nil_append,
+    List.mem_cons, List.mem_append, List.mem_map, List.mem_flatMap, List.not_mem_nil, or_false] at h
+  rcases h with ⟨_, _, _, _, rfl⟩ | ⟨a, rfl, _, _, rfl⟩ | ⟨a, ha, _, _, rfl⟩ | ⟨_, _, _, _, rfl⟩
+  · exact Or.inl rfl
+  · exact Or.inr ⟨[], rfl, List.nil_prefix⟩
+  · exact Or.inr ⟨a, rfl, mem_prefixes.mp ha⟩
+  · exact Or.inr ⟨new, rfl, List.prefix_refl _⟩
+
+/-- ... and every prefix of the new text is still a crash state of it. -/
+theorem buffered_every_prefix_is_a_crash_state (old new p : Bytes) (hp : p <+: new) :
+    { live := some p, tmp := none } ∈ crashStatesB (BFs.init old) (saveOps new) := by
+  simp only [saveOps, crashStatesB, visible, BFs.init, Fs.init, applyOpB, BFs.setHandle, BFs.buf, BFs.loc, prefixes,
+    flushTo, Fs.set, Fs.get, List.nil_append,
+    List.mem_cons, List.mem_append, List.mem_map, List.mem_flatMap, List.not_mem_nil, or_false]
+  exact Or.inr (Or.inr (Or.inl ⟨p, mem_prefixes.mpr hp, [], rfl, rfl⟩))
+
+/-- The temp-file-and-rename sequence that closes the temporary file *before* the rename stays safe under
+buffered writes: the live file holds the old text or the complete new text. -/
+theorem buffered_atomic_live_old_or_new (old new : Bytes) (c : Fs)
+    (h : c ∈ crashStatesB (BFs.init old) (saveOpsAtomic new)) :
+    c.live = some old ∨ c.live = some new := by
+  simp only [saveOpsAtomic, crashStatesB, visible, BFs.init, Fs.init, applyOpB, BFs.setHandle, BFs.buf, BFs.loc, prefixes,
+    flushTo, moveLoc, Fs.set, Fs.get, List.nil_append, reduceCtorEq, if_false,
+    List.mem_cons, List.mem_append, List.mem_map, List.mem_flatMap, List.not_mem_nil, or_false] at h
+  rcases h with ⟨_, _, _, _, rfl⟩ | ⟨_, _, _, _, rfl⟩ | ⟨_, _, _, _, rfl⟩ | ⟨_, _, _, _, rfl⟩ | ⟨_, _, _, _, rfl⟩
+  · exact Or.inl rfl
+  · exact Or.inl rfl
+  · exact Or.inl rfl
+  · exact Or.inl rfl
+  · exact Or.inr rfl
+
+theorem atomic_if_renamed_buffered (L : Loader Reg) : CrashSafeB L saveOpsAtomic := by
+  intro old new ho hn c hc
+  rcases buffered_atomic_live_old_or_new _ _ _ hc with h | h
+  · left; simp [loadFs, h, L.load_dump old ho]
+  · right; simp [loadFs, h, L.load_dump new hn]
+
+/-- **Rename before close.**  Under buffered writes the sequence "write the temporary file, move it over the
+live file, then close it" has a crash state in which the live file is EMPTY and the old text is gone: the
+rename published a file whose text was still in the buffer. -/
+theorem rename_before_close_empties_live (old new : Bytes) :
+    { live := some [], tmp := none } ∈ crashStatesB (BFs.init old) (saveOpsRenameOpen new) := by
+  simp only [saveOpsRenameOpen, crashStatesB, visible, BFs.init, Fs.init, applyOpB, BFs.setHandle, BFs.buf, BFs.loc, prefixes,
+    flushTo, moveLoc, Fs.set, Fs.get, List.nil_append, reduceCtorEq, if_false, if_true,
+    List.mem_cons, List.mem_append, List.mem_map, List.mem_flatMap, List.not_mem_nil, or_false]
+  exact Or.inr (Or.inr (Or.inr (Or.inl ⟨[], rfl, [], mem_prefixes.mpr List.nil_prefix, rfl⟩)))
+
+/-- The write-through model is blind to it: with the bytes of a `write` in the file when the call returns,
+the same sequence passes for crash safe (the rename seems to move the complete new text).  This is why the
+crash states must be taken from what was flushed, not from what was written. -/
+theorem rename_before_close_safe_if_write_through (L : Loader Reg) : CrashSafe L saveOpsRenameOpen := by
+  intro old new ho hn c hc
+  simp only [saveOpsRenameOpen, crashStates, Fs.init, applyOp, Fs.set, Fs.get, Option.getD_some, List.nil_append,
+    List.mem_cons, List.mem_append, List.mem_map, List.not_mem_nil, or_false, reduceCtorEq, if_false] at hc
+  rcases hc with rfl | ⟨p, _, rfl⟩ | rfl | rfl | rfl
+  · left; simp [loadFs, L.load_dump old ho]
+  · left; simp [loadFs, L.load_dump old ho]
+  · left; simp [loadFs, L.load_dump old ho]
+  · right; simp [loadFs, L.load_dump new hn]
+  · right; simp [loadFs, L.load_dump new hn]
+
+/-- **Not crash safe once buffering is modelled**: the empty live file loads as the empty registry. -/
+theorem rename_before_close_not_crash_safe (L : Loader Reg) (r : Reg) (hok : L.ok r) (hr : r ≠ L.empty) :
+    ¬ CrashSafeB L saveOpsRenameOpen := by
+  intro hs
+  have hload : loadFs L { live := some [], tmp := none } = .ok L.empty := by simp [loadFs, L.load_empty]
+  rcases hs r r hok hok _ (rename_before_close_empties_live (L.dump r) (L.dump r)) with h | h <;>
+  · rw [hload] at h
+    exact hr (LoadResult.ok.inj h).symm
+
+/-- Today's sequence under buffered writes is not crash safe either (the known finding), and for the same
+reason only: a strict prefix of the new text at the live path. -/
+theorem not_crash_safe_buffered (L : Loader Reg) (r : Reg) (hok : L.ok r) (hr : r ≠ L.empty) : ¬ CrashSafeB L saveOps := by
+  intro hs
+  have hload : loadFs L { live := some [], tmp := none } = .ok L.empty := by simp [loadFs, L.load_empty]
+  rcases hs r r hok hok _ (buffered_every_prefix_is_a_crash_state (L.dump r) (L.dump r) [] List.nil_prefix) with h | h <;>
+  · rw [hload] at h
+    exact hr (LoadResult.ok.inj h).symm
 
 /-! ### Non-vacuity: the toy loader satisfies the `Loader` hypotheses -/
 
@@ -342,6 +442,17 @@ theorem not_crash_safe_real : ¬ CrashSafe realLoader saveOps :=
 
 theorem backup_first_not_crash_safe_real : ¬ CrashSafe realLoader saveOpsBackupFirst :=
   backup_first_not_crash_safe realLoader sampleReg sampleReg_ok (by decide)
+
+/-- For the real loader: moving the temporary file over the live file before it is closed is not crash safe
+once buffering is modelled (the live file is empty for a moment and loads as the empty registry) ... -/
+theorem rename_before_close_not_crash_safe_real : ¬ CrashSafeB realLoader saveOpsRenameOpen :=
+  rename_before_close_not_crash_safe realLoader sampleReg sampleReg_ok (by decide)
+
+/-- ... although the write-through model accepts it, and the sequence that closes first is safe in both. -/
+theorem rename_before_close_safe_if_write_through_real : CrashSafe realLoader saveOpsRenameOpen :=
+  rename_before_close_safe_if_write_through realLoader
+
+theorem atomic_if_renamed_buffered_real : CrashSafeB realLoader saveOpsAtomic := atomic_if_renamed_buffered realLoader
 
 /-- **With temp-file-plus-rename the property holds at full strength for the real loader**: every
 crash state loads to the old or the new registry. -/
